@@ -1,0 +1,43 @@
+//go:build verif
+
+package sync
+
+// Contracts for the govc verifier (/verif). This file contains comments only;
+// it does not change the compiled package.
+//
+// Abstract view of a LockPile: pile[lp][l] is the number of times lock l has
+// been added to pile lp (recursion count + 1, or 0 if absent). A lock is held
+// by the calling thread through the pile iff its count is positive. held(l)
+// is the verifier's per-call ledger of lock acquisitions.
+
+//@ ghost map pile(ref) intmap freshzero stable
+
+//@ pred b2i(b bool) := ite(b, 1, 0)
+//@ pred occurrences(s []TryLocker, l TryLocker) :=
+//@      b2i(len(s) > 0 && s[0] == l) + b2i(len(s) > 1 && s[1] == l) + b2i(len(s) > 2 && s[2] == l)
+
+// Lock: every new lock is in the pile once more; locks that were not in the
+// pile are now held. Whatever the return value, the same set of locks is held
+// afterwards (the return value only says whether pile locks were dropped
+// temporarily). Stated for up to three locks per call (the code base passes
+// one or two).
+//@ func (*LockPile).Lock
+//@   props C14
+//@   trusted -- abstract contract of LockPile; lock_pile.go is not verified against it
+//@   modifies held, pile[lp]
+//@   ensures len(newLocks) <= 3 ==> (forall l TryLocker :: pile[lp][l] == old(pile[lp][l]) + occurrences(newLocks, l))
+//@   ensures forall l TryLocker :: held(l) == old(held(l)) + b2i(old(pile[lp][l]) == 0 && pile[lp][l] > 0)
+
+//@ func (*LockPile).Unlock
+//@   props C14
+//@   trusted -- abstract contract of LockPile; lock_pile.go is not verified against it
+//@   modifies held, pile[lp]
+//@   ensures forall l TryLocker :: pile[lp][l] == old(pile[lp][l]) - b2i(l == oldLock)
+//@   ensures forall l TryLocker :: held(l) == old(held(l)) - b2i(l == oldLock && old(pile[lp][l]) == 1)
+
+//@ func (*LockPile).UnlockAll
+//@   props C14
+//@   trusted -- abstract contract of LockPile; lock_pile.go is not verified against it
+//@   modifies held, pile[lp]
+//@   ensures forall l TryLocker :: pile[lp][l] == 0
+//@   ensures forall l TryLocker :: held(l) == old(held(l)) - b2i(old(pile[lp][l]) > 0)
